@@ -27,6 +27,10 @@ ck.regen()
 mods = ck.props_modules()
 if mods:
     ck.lean(mods)
+    ck.require_theorems([
+        'LbzVerif.Props.C09.emit_split',
+        'LbzVerif.Props.C09.Sched.output_eq',
+    ])
 inproc.run_libs(ck, ['w12_emit'])
 exe = ck.build_lbzip2(asan=False)
 rng = ck.rng
